@@ -69,7 +69,7 @@ _STORAGE_RULE = ("stream storage: sequential histories against the real InMemory
                  "detail fetch after every commit) and 'general' (1-2 clusters, 6 group names incl. spaces/unicode, 3 topics, <=4 partitions, ring sizes 1-4, "
                  "expire-group 3600/5/1 s with commit times on the expiry boundary, allow/deny regexps, all twelve request types incl. deletions of each kind "
                  "followed by all fetches of everything, time shifting, out-of-range partitions). Non-trivial = an output other than ok / empty list / nil.")
-_STORAGE_STREAM = {"name": "storage", "trivial": r"^(ok( ~place=none)?|nil|list=-)$", "hist_keys": ["place"],
+_STORAGE_STREAM = {"name": "storage", "trivial": r"^(ok( ~place=none)?|nil|list=-|gs=0 .*)$", "hist_keys": ["place"],
                    "scale": {"quick": 4, "thorough": 40}, "seeds": {"quick": 1, "thorough": 4}}
 
 PROPS["C01"] = {
@@ -95,4 +95,46 @@ PROPS["C02"] = {
         "int64 overflow of minDistance*1000 and of timestamp differences is not modelled",
     ],
     "assumptions": PROPS["C01"]["assumptions"] if "C01" in PROPS else [],
+}
+
+PROPS["C04"] = {
+    "lean_modules": ["BurrowVerif.Props.C04"],
+    "props_files": ["BurrowVerif/Props/C04.lean"],
+    "anchors": ["core/internal/evaluator/caching.go", "core/protocol/evaluator.go"],
+    "streams": [dict(_STORAGE_STREAM, keys={"gs", "complete", "count", "total", "maxlag", "parts"})],
+    "rule": _STORAGE_RULE + " The 'status' op builds a fresh CachingEvaluator (empty cache) on the current real storage and requests the group status in the full or the problems-only view with minimum-complete in {0, 0.3, 0.5, 1} and allowed-lag in {0, 1, 5, 100}; groups mix partitions without commits, owner-only partitions, partial and full windows and lag ties.",
+    "trusted": [
+        "float32 completeness values are carried as (numerator, denominator) pairs in the theorems and compared as IEEE bit patterns in the correspondence (exact emulation in the driver)",
+        "max-lag ties are broken by Go map order: compared by lag value only (maxlag_is_max states membership and maximality)",
+    ],
+    "assumptions": PROPS["C01"]["assumptions"],
+}
+
+_NOTIFIER_STREAM = {"name": "notifier", "trivial": r"^(ok|notes=-)$", "hist_keys": [],
+                    "scale": {"quick": 2, "thorough": 30}, "seeds": {"quick": 1, "thorough": 4}}
+_NOTIFIER_RULE = ("stream notifier: the real checkAndSendResponseToModules + notifyModule with 1-3 recording modules (threshold 1-4, send-interval 0/1/5/60 s, "
+                  "send-once and send-close in all combinations, allow/deny regexps) on status sequences of 8-35 evaluations over 1-3 groups in two clusters "
+                  "(statuses OK..REWIND, incidents of several lengths and severities, group records deleted and re-created); the clock is advanced by shifting the "
+                  "stored instants back (hook) by k*1000+8 ms so that no interval comparison lands within 8 ms of its boundary; event ids are renamed to "
+                  "first-occurrence indices, start times compared as virtual milliseconds. Non-trivial = at least one notification.")
+PROPS["C13"] = {
+    "lean_modules": ["BurrowVerif.Props.C13"],
+    "props_files": ["BurrowVerif/Props/C13.lean"],
+    "anchors": ["core/internal/notifier/coordinator.go"],
+    "streams": [dict(_NOTIFIER_STREAM)],
+    "rule": _NOTIFIER_RULE,
+    "trusted": [
+        "uuid.NewRandom() is modelled as a supply of ids that never repeats (FreshIds hypothesis): collision freedom of random v4 UUIDs is an assumption",
+        "the group-list refresh deleting and re-creating a record mid-incident bounds the theorem (a record's lifetime); concurrent responses for one group are not modelled (paced by C15)",
+    ],
+    "assumptions": ["time.Now() inside the notifier cannot be injected: the harness freezes the clock relative to the stored instants before each evaluation (shifts them forward by the real time elapsed) and advances it by shifting them back"],
+}
+PROPS["C14"] = {
+    "lean_modules": ["BurrowVerif.Props.C14"],
+    "props_files": ["BurrowVerif/Props/C14.lean"],
+    "anchors": ["core/internal/notifier/coordinator.go"],
+    "streams": [dict(_NOTIFIER_STREAM)],
+    "rule": _NOTIFIER_RULE,
+    "trusted": PROPS["C13"]["trusted"] + ["'at most once per send interval' is read within an incident (DESIGN 4.14): Burrow itself restarts the timer at incident boundaries"],
+    "assumptions": PROPS["C13"]["assumptions"],
 }
